@@ -25,6 +25,12 @@ RULE = ("histories of 1-10 operations (concatenate, export_character_indices/_su
         "concatenate, copy construction, exports — and, in half of them, sequence objects shared by the user (m[t] = n's sequence "
         "object, copy.copy) followed by exports / extensions / fills of the matrix that holds an object twice; after every call the "
         "whole pool and the partition of dict entries into shared objects are compared with the heap model. "
+        "Every 6th case is a SIZE history (3-14 steps on two matrices over one namespace, the second mostly covering SOME of the taxa "
+        "that already have rows in the first): size observables (max_sequence_size, sequence_size, vector_size, fill / pack with and "
+        "without a size, fill_taxa, the PHYLIP header) drawn before and after every kind of in-place row edit — extend_sequences / "
+        "extend_matrix / update_ / replace_ / add_sequences, and edits made on the row OBJECT m[t] behind the matrix's back "
+        "(extend, append, insert, del, m[t][i:j] = equally many values, del m[t][i:j]) — plus, after 60 % of the steps, a probe of the "
+        "size observables of every matrix against a from-scratch count. "
         "non-trivial = at least two rows and one non-empty row among the operands, or a "
         "concatenation of >= 2 matrices, or (world) a call after the first on a pool with a non-empty row")
 MODELLED_NOT_VERIFIED = [
@@ -55,6 +61,10 @@ MODELLED_NOT_VERIFIED = [
     "operations that only READ their operands (export_*, concatenate, copy construction) in full; the rest is model comparison",
     "C19: the heap model's export filters every object of the clone once (rows keyed by a taxon outside the namespace, which the "
     "value-level exportIdx leaves unfiltered as the code does, do not occur in world histories: wf_preserved)",
+    "C19: an edit made on a row object (seq.extend/append/insert/del/slice) is mirrored in the value-level model as m[t] = <the row "
+    "Python's list semantics gives>; slice assignments are generated only with as many values as the slice holds (a longer or "
+    "shorter one leaves the parallel character-type / annotation lists of the sequence out of step — outside the statement); the "
+    "PHYLIP writer is judged by its header only (oracle, no model counterpart)",
     "C19: Sep, StepOK, FreshOK, metas, validRun, argViews, HCall.library are specification-side definitions",
     "C19: Gen/C19Kernels.lean (label formats, search start/step, the re-bound name of the search loop, guard order, span, padding "
     "test and insert position, export loop bounds) is regenerated from charmatrixmodel.py by harness/gen/c19kernels.py, a hand-written "
@@ -111,6 +121,34 @@ ELEMENT = ("getitem", "setitem", "newseq", "delitem", "clear", "items")
 MUTATING = ("getitem", "setitem", "newseq", "delitem", "clear", "new_subset", "fill", "fill_taxa", "pack", "add", "replace", "update", "extend", "extend_new", "extend_matrix",
             "remove", "discard", "keep")
 BINARY = ("add", "replace", "update", "extend", "extend_new", "extend_matrix")
+# edits made directly on the row OBJECT `m[t]` (a CharacterDataSequence), behind the matrix's back
+SEQEDIT = ("seq_extend", "seq_append", "seq_insert", "seq_del", "seq_setslice", "seq_delslice")
+MUTATING = MUTATING + SEQEDIT
+
+
+def seq_want(op, row):
+    """the row after the edit, by Python's list semantics (None = IndexError, row unchanged)"""
+    r = list(row)
+    n = op["op"]
+    if n == "seq_extend":
+        return r + list(op["row"])
+    if n == "seq_append":
+        return r + [op["c"]]
+    if n == "seq_insert":
+        r.insert(op["idx"], op["c"])
+        return r
+    if n == "seq_del":
+        if not -len(r) <= op["idx"] < len(r):
+            return None
+        del r[op["idx"]]
+        return r
+    if n == "seq_setslice":
+        r[op["lo"]:op["hi"]] = list(op["row"])
+        return r
+    if n == "seq_delslice":
+        del r[op["lo"]:op["hi"]]
+        return r
+    raise RuntimeError("unknown sequence edit " + n)
 
 
 # ------------------------------------------------------------------------------------------------ environment
@@ -336,6 +374,24 @@ def execute(env, pool, op):
                 return "ok", None
             if name == "sizes":
                 return "ok", [len(m), m.max_sequence_size, m.sequence_size, m.vector_size]
+            if name == "phylip":
+                head = m.as_string("phylip").split("\n", 1)[0].split()
+                return "ok", [int(x) for x in head]
+            if name in SEQEDIT:
+                seq = m[env.taxon_of[op["t"]]]
+                if name == "seq_extend":
+                    seq.extend(wrap(op.get("kind"), [env.value(m, c) for c in op["row"]]))
+                elif name == "seq_append":
+                    seq.append(env.value(m, op["c"]))
+                elif name == "seq_insert":
+                    seq.insert(op["idx"], env.value(m, op["c"]))
+                elif name == "seq_del":
+                    del seq[op["idx"]]
+                elif name == "seq_setslice":
+                    seq[op["lo"]:op["hi"]] = [env.value(m, c) for c in op["row"]]
+                else:
+                    del seq[op["lo"]:op["hi"]]
+                return "ok", None
             if name == "contains":
                 t = env.taxon_of[op["t"]]
                 return "ok", [t in m, (t.label in m) if op["t"] in env.ns_gids(env.ns_index(m.taxon_namespace)) else None,
@@ -546,6 +602,27 @@ def oracle(env, op, pre, post, status, res, ret, pool_ids, res_id):
         if p.key() != s.key():
             bad.append(("argument-changed", "reading len / max_sequence_size changed the matrix"))
         return bad
+    if name == "phylip":
+        if status != "ok":
+            return bad + [("exception", "writing PHYLIP raised %s" % status)]
+        want = [len(s.rows), max([len(r) for r in s.rows.values()] or [0])]
+        if list(ret) != want:
+            bad.append(("sizes", "PHYLIP header says %s sequences x sites, the rows say %s" % (ret, want)))
+        if p.key() != s.key():
+            bad.append(("argument-changed", "writing PHYLIP changed the matrix"))
+        return bad
+    if name in SEQEDIT:
+        want_row = seq_want(op, s.rows[op["t"]])
+        want_rows = dict(s.rows)
+        if want_row is not None:
+            want_rows[op["t"]] = want_row
+        want_status = "ok" if want_row is not None else "IndexError"
+        if status != want_status:
+            bad.append(("element", "%s on the row of taxon %d: %s, expected %s" % (name, op["t"], status, want_status)))
+        elif p.rows != want_rows:
+            bad.append(("element", "%s on the row of taxon %d: %s -> %s, expected rows %s" % (
+                name, op["t"], s.state(), p.state(), state_string(want_rows, []))))
+        return bad
     if name == "contains":
         if status != "ok":
             return bad + [("exception", "`taxon in matrix` raised %s" % status)]
@@ -671,6 +748,9 @@ def call_tokens(env, op, pre):
         return "%s %d" % (name, op["t"])
     if name in ("setitem", "newseq"):
         return "%s %d %d %s" % (name, op["t"], len(op["row"]), " ".join(str(c) for c in op["row"]))
+    if name in SEQEDIT:
+        w = seq_want(op, pre[op["m"]].rows[op["t"]])
+        return "setitem %d %d %s" % (op["t"], len(w), " ".join(str(c) for c in w))
     raise RuntimeError("not a mutating call: " + name)
 
 
@@ -696,6 +776,9 @@ def model_line(env, op, pre):
         return "%s %s %d %d %s" % (name, m, op["t"], len(op["row"]), " ".join(str(c) for c in op["row"]))
     if name in ("clear", "items"):
         return "%s %s" % (name, m)
+    if name in SEQEDIT:
+        w = seq_want(op, pre[op["m"]].rows[op["t"]])
+        return "setitem %s %d %d %s" % (m, op["t"], len(w), " ".join(str(c) for c in w))
     if name == "sizes":
         return "sizes " + m
     if name == "contains":
@@ -713,6 +796,8 @@ def impl_line(op, status, post, res, ret):
         return None
     if name in ("concat", "export_idx", "export_sub"):
         return "ok " + res.state() if status == "ok" else status
+    if name == "phylip" or (name in SEQEDIT and status != "ok"):
+        return None         # no counterpart in the model (a writer) / the edit raised before touching the row
     p = post[op["m"]]
     if name == "getitem":
         return "ok row=%s %s" % (".".join(str(c) for c in ret), p.state()) if status == "ok" else status
@@ -780,9 +865,31 @@ def run_history(ctx, dendropy, hist, pending, shrink=True, gen=None, nops=0):
             return False
         creating = op["op"] in ("concat", "export_idx", "export_sub")
         res = Snap(env, out) if (creating and status == "ok") else None
-        ret = out if op["op"] in ("fill", "sizes", "contains", "getitem", "items") else None
+        ret = out if op["op"] in ("fill", "sizes", "phylip", "contains", "getitem", "items") else None
         post = [Snap(env, m) for m in pool]
         problems = oracle(env, op, pre, post, status, res, ret, pool_ids, id(out) if creating else None)
+        if op.get("probe"):
+            # size observables of EVERY matrix of the pool right after the step, against a from-scratch count over the rows
+            for j, mj in enumerate(pool):
+                sj = post[j]
+                try:
+                    with cpu_limit(TL):
+                        got = [len(mj), mj.max_sequence_size, mj.sequence_size, mj.vector_size]
+                except Timeout:
+                    problems.append(("Timeout", "len / max_sequence_size / sequence_size after %s did not return" % op["op"]))
+                    continue
+                except Exception as e:
+                    if not common.is_library_exception(e):
+                        raise
+                    problems.append(("exception", "len / max_sequence_size / sequence_size after %s raised %s" % (op["op"], type(e).__name__)))
+                    continue
+                first = len(sj.rows[sj.order[0]]) if sj.order else 0
+                want = [len(sj.rows), max([len(r) for r in sj.rows.values()] or [0]), first, first]
+                if got != want:
+                    problems.append(("sizes", "after %s: len, max_sequence_size, sequence_size, vector_size of matrix %d = %s, the rows say %s (%s)" % (
+                        op["op"], j, got, want, sj.state())))
+                elif Snap(env, mj).key() != sj.key():
+                    problems.append(("argument-changed", "reading the size observables of matrix %d changed it" % j))
         ctx.case([hist["dtype"], [s.key() for s in pre], op], nontrivial(op, pre),
                  sample={"dtype": hist["dtype"], "op": op, "pre": [s.state() for s in pre], "status": status}, kind=op["op"])
         ctx.count("%s:%s" % (op["op"], status))
@@ -965,6 +1072,78 @@ def gen_op(rng, env, pre, max_w):
         op["kind"] = pick_kind(rng, taxa, order_matters, taxa=True)
     if op["op"] in ("concat", "export_idx", "export_sub"):
         op["dst"] = n if n < 6 else rng.randrange(n)
+    return op
+
+
+def gen_size_init(rng, ncodes_of, max_taxa, max_w):
+    """two matrices over one namespace; the second mostly has rows for SOME of the taxa the first has rows for, so that
+    extending / updating the first lengthens or replaces existing rows without adding any"""
+    dtype = rng.choice(DTYPES)
+    ncodes = ncodes_of[dtype]
+    n0 = rng.randint(2, max_taxa)
+    taxa = list(range(n0))
+    rows0 = gen_rows(rng, ncodes, taxa, 0.7, 0.5, max_w)
+    present = [g for g, _ in rows0]
+    sub = [g for g in present if rng.random() < 0.6] or present[:1]
+    if rng.random() < 0.2:
+        sub = sub + [g for g in taxa if g not in present][:1]
+    rows1 = [[g, [rng.randint(1, ncodes) for _ in range(rng.randint(1, max_w))]] for g in sub]
+    init = [{"ns": 0, "label": None, "rows": rows0, "subs": []}, {"ns": 0, "label": None, "rows": rows1, "subs": []}]
+    return {"dtype": dtype, "ns_sizes": [n0, n0], "init": init, "ops": []}
+
+
+def gen_size_op(rng, env, pre, max_w):
+    """size observables (max_sequence_size, sequence_size, fill, pack, fill_taxa, the PHYLIP header) used before and after every
+    kind of in-place row edit"""
+    m = 0 if rng.random() < 0.85 else rng.randrange(len(pre))
+    s = pre[m]
+    own = env.ns_gids(s.ns)
+    r = rng.random()
+    if r < 0.36:
+        u = rng.random()
+        if u < 0.55:
+            op = {"op": rng.choice(["fill", "fill", "pack"]), "m": m, "value": rng.randint(1, env.ncodes),
+                  "size": None if rng.random() < 0.75 else rng.randint(0, max_w + 2), "append": rng.random() < 0.6}
+        elif u < 0.75:
+            op = {"op": "sizes", "m": m}
+        elif u < 0.9 and env.dtype != "continuous" and own:
+            op = {"op": "phylip", "m": m}
+        else:
+            op = {"op": "fill_taxa", "m": m}
+    elif r < 0.60:
+        o = rng.randrange(len(pre)) if rng.random() < 0.15 else (1 if m == 0 else 0)
+        op = {"op": rng.choice(["extend", "extend_matrix", "extend_new", "extend", "extend_matrix", "update", "replace", "add"]), "m": m, "o": o}
+    elif r < 0.84 and s.rows:
+        t = rng.choice(sorted(s.rows))
+        n = len(s.rows[t])
+        name = rng.choice(SEQEDIT)
+        op = {"op": name, "m": m, "t": t}
+        if name == "seq_extend":
+            op["row"] = [rng.randint(1, env.ncodes) for _ in range(rng.randint(0, max_w))]
+            op["kind"] = rng.choice(["list", "tuple", "gen", "iter"])
+        elif name in ("seq_append", "seq_insert"):
+            op["c"] = rng.randint(1, env.ncodes)
+            op["idx"] = rng.randint(-n - 1, n + 1)
+        elif name == "seq_del":
+            op["idx"] = rng.randint(-n, n - 1) if (n and rng.random() < 0.85) else rng.choice([n, -n - 1])
+        else:
+            lo = rng.randint(0, n)
+            hi = rng.randint(lo, n)
+            op["lo"], op["hi"] = lo, hi
+            if name == "seq_setslice":      # as long as the slice it replaces: the parallel lists of the sequence stay aligned
+                op["row"] = [rng.randint(1, env.ncodes) for _ in range(hi - lo)]
+    else:
+        name = rng.choice(["remove", "discard", "keep", "delitem", "setitem", "newseq", "getitem", "clear"] if rng.random() < 0.9 else ["clear"])
+        op = {"op": name, "m": m}
+        if name in ("remove", "discard", "keep"):
+            op["taxa"] = rng.sample(sorted(s.rows), rng.randint(0, len(s.rows))) if s.rows else []
+            op["kind"] = "list"
+        elif name != "clear":
+            op["t"] = rng.choice(own)
+            if name in ("setitem", "newseq"):
+                op["row"] = [rng.randint(1, env.ncodes) for _ in range(rng.randint(0, max_w + 1))]
+                op["kind"] = "list"
+    op["probe"] = rng.random() < 0.6
     return op
 
 
@@ -1686,6 +1865,14 @@ def run(ctx):
             if len(pending) >= 2000:
                 flush(ctx, pending)
             continue
+        if k % 12 in (4, 9):
+            hist = gen_size_init(rng, ncodes, ctx.pick(4, 6), ctx.pick(4, 6))
+            if not run_history(ctx, dendropy, hist, pending, gen=lambda env, pre: gen_size_op(rng, env, pre, ctx.pick(4, 6)),
+                               nops=rng.randint(3, ctx.pick(10, 14))):
+                hangs += 1
+            if len(pending) >= 2000:
+                flush(ctx, pending)
+            continue
         if k % 12 == 11:
             stream_case(ctx, dendropy, gen_stream_case(rng), pending)
             if any(f["kind"].startswith("Timeout") and f["replay"].get("stream") for f in ctx.failures[-1:]):
@@ -1735,6 +1922,12 @@ def search(ctx, broken):
     for k in range(ctx.pick(3000, 60000)):
         if ctx.out_of_time() or hangs >= 3 or len(ctx.failures) >= 5:
             break
+        if k % 3 == 2:     # size observables before and after in-place row edits
+            hist = gen_size_init(rng, ncodes, 4, 4)
+            if not run_history(ctx, dendropy, hist, pending, gen=lambda env, pre: gen_size_op(rng, env, pre, 4), nops=rng.randint(3, 10)):
+                hangs += 1
+            n += 1
+            continue
         hist = gen_init(rng, ncodes, 4, 4)
         for spec in hist["init"]:        # colliding labels, complete rectangular matrices: the search loop is entered
             spec["label"] = rng.choice(["x", "X", "x_002", None, "locus001", "locus000"])
